@@ -498,3 +498,11 @@ func (i *interpreter) protoEncode(t types.Type, v value, out []byte, depth int) 
 	}
 	panic(unsupported(fmt.Sprintf("proto.Marshal of %T", v)))
 }
+
+func init() {
+	extraIntrinsics = append(extraIntrinsics, func(m map[string]Intrinsic) {
+		m["(google.golang.org/protobuf/internal/impl.Export).NewError"] = func(fr *frame, args []value) value {
+			return fr.i.newError(fmtModel(args[1].(string), args[2]))
+		}
+	})
+}
